@@ -48,6 +48,10 @@ CHECKS = {
   "Purge-heavy generated histories x worker schedules x fdatasync fault plans; at every unlink in the trace: oldest-first, durable-image crash check right after the unlink (with and without the deleted file), no hole among remaining files; at a clean end the remaining files replay (reference decoder) to the model state and every provably obsolete closed chunk is gone.",
   "Liveness clause in its conservative reading (see DESIGN.md); images in the known C05 rotation-gap class skipped in the crash sub-check.",
   "property-based testing (proptest) + fault/crash enumeration at unlink events, metamorphic (with/without file) and model-prefix oracles", "DESIGN.md §4 C08"),
+ "C14": ("exploration",
+  "Generated purge-heavy histories with drop/reopen cycles under generated worker schedules: the last flush is stepped exactly to its callback, the store is dropped on a helper thread, the old worker's remaining gated calls are placed around the new instance's open/purge/flush; the trace must show no mutation by a dropped instance after its drop returned, open must show the acknowledged state, and the new instance must keep completing flushes.",
+  "Same-process reopen; placement granularity = gated file-system calls of the old worker vs operations of the new instance.",
+  "property-based testing (proptest): stateful model-based over generated schedules (gated worker), trace invariant", "DESIGN.md §4 C14"),
 }
 
 ALL = [f"C{i:02d}" for i in range(1, 17)]
